@@ -11,6 +11,7 @@ import (
 	"math"
 	"sort"
 	"strings"
+	"sync"
 
 	comet "github.com/wizenheimer/comet"
 	"verifharness/internal/core"
@@ -40,7 +41,21 @@ type postCase struct {
 	// values (NaN, ±Inf, ±0, denormals, ±1e30, ±1) — the length-2 case whose
 	// `diff[i-2]` read is guarded only by float arithmetic.
 	Len2Sweep bool `json:"len2_sweep,omitempty"`
+	// CustomCfg: first obtain DefaultFusionConfig(), set its fields to (CWV, CWT, CKK) — the
+	// idiomatic way to build a customised fusion — combine with fusions built from it, and THEN
+	// evaluate DefaultFusion(), NewFusion(kind, nil) and DefaultFusionConfig() again: the
+	// defaults must still be 1, 1 and K = 60 (no state left over from the earlier calls).
+	CustomCfg bool   `json:"custom_cfg,omitempty"`
+	CWV       uint64 `json:"cwv,omitempty"`
+	CWT       uint64 `json:"cwt,omitempty"`
+	CKK       uint64 `json:"ckk,omitempty"`
 }
+
+// postDefaultMu keeps the "customise a default config, then use the defaults" sequence of one
+// case apart from the default-configured fusions of the cases running on other workers, so
+// that a failing case is reproducible on its own (replay) even if the implementation shares
+// state between configurations.
+var postDefaultMu sync.RWMutex
 
 // ---------------------------------------------------------------- generators
 
@@ -272,6 +287,16 @@ func genPost(r *core.Rand, tier string) *postCase {
 	c.PermSeed = r.U64()
 	c.WV, c.WT, c.KK = genWeight(r), genWeight(r), genRRFK(r)
 	c.Len2Sweep = r.Chance(0.04)
+	if r.Chance(0.2) {
+		c.CustomCfg = true
+		c.CWV, c.CWT, c.CKK = genWeight(r), genWeight(r), genRRFK(r)
+		if c.CWV == math.Float64bits(1) && c.CWT == math.Float64bits(1) {
+			c.CWV = math.Float64bits(0.25)
+		}
+		if c.CKK == math.Float64bits(60) {
+			c.CKK = math.Float64bits(1)
+		}
+	}
 	return c
 }
 
@@ -559,7 +584,50 @@ func execPost(c *postCase) []string {
 
 	// --- fusion
 	vT, tT := join(entToks(c.V)), join(entToks(c.T))
-	defaults := c.WV == math.Float64bits(1) && c.WT == math.Float64bits(1) && c.KK == math.Float64bits(60)
+	one, sixty := math.Float64bits(1), math.Float64bits(60)
+	combineLine := func(name string, wv, wt, kk uint64, mk func() (comet.Fusion, error)) {
+		head := fmt.Sprintf("fuse %s %016x %016x %016x%s /%s", name, wv, wt, kk, vT, tT)
+		guarded(&lines, head, func() string {
+			f, err := mk()
+			if err != nil {
+				panic(err)
+			}
+			vm, tm := mkMap(c.V), mkMap(c.T)
+			out := f.Combine(vm, tm)
+			return fmt.Sprintf("op %s => %s /%s", head, mutTok(sameMap(vm, c.V) && sameMap(tm, c.T)), join(mapToks(out)))
+		})
+	}
+	defaultsLine := func(when string) {
+		guarded(&lines, "defaults "+when, func() string {
+			d := comet.DefaultFusionConfig()
+			return fmt.Sprintf("op defaults %s => %016x %016x %016x", when,
+				math.Float64bits(d.VectorWeight), math.Float64bits(d.TextWeight), math.Float64bits(d.K))
+		})
+	}
+	if c.CustomCfg {
+		postDefaultMu.Lock()
+		func() {
+			defer postDefaultMu.Unlock()
+			defaultsLine("before")
+			// step 1: customise a config obtained from DefaultFusionConfig() and use it
+			custom := comet.DefaultFusionConfig()
+			custom.VectorWeight = math.Float64frombits(c.CWV)
+			custom.TextWeight = math.Float64frombits(c.CWT)
+			custom.K = math.Float64frombits(c.CKK)
+			// a tidy caller's reset; on a private struct (the code as it is) it changes nothing else
+			defer func() { custom.VectorWeight, custom.TextWeight, custom.K = 1, 1, 60 }()
+			combineLine("wsum", c.CWV, c.CWT, c.CKK, func() (comet.Fusion, error) { return comet.NewFusion(comet.WeightedSumFusion, custom) })
+			combineLine("rrf", c.CWV, c.CWT, c.CKK, func() (comet.Fusion, error) { return comet.NewFusion(comet.ReciprocalRankFusion, custom) })
+			// step 2: every default-configured fusion still uses 1, 1 and K = 60
+			combineLine("wsum", one, one, sixty, func() (comet.Fusion, error) { return comet.DefaultFusion(), nil })
+			combineLine("wsum", one, one, sixty, func() (comet.Fusion, error) { return comet.NewFusion(comet.WeightedSumFusion, nil) })
+			combineLine("rrf", one, one, sixty, func() (comet.Fusion, error) { return comet.NewFusion(comet.ReciprocalRankFusion, nil) })
+			defaultsLine("after")
+		}()
+	}
+	postDefaultMu.RLock()
+	defer postDefaultMu.RUnlock()
+	defaults := c.WV == one && c.WT == one && c.KK == sixty
 	cfg := func() *comet.FusionConfig {
 		if defaults && c.PermSeed%2 == 0 {
 			return nil // NewFusion substitutes DefaultFusionConfig: weights 1, 1 and K = 60
@@ -666,7 +734,7 @@ func nonTrivialPost(lines, replies []string) bool {
 func init() {
 	register(&core.Typed[postCase]{
 		StreamName: "post", Prop: "C19",
-		RuleText: "one case = a result list (0..300 entries; duplicate ids; random / lattice-with-ties / ascending-with-knees / all-equal / NaN,±Inf,±0,denormal,1e30 scores) + a pair of score maps (disjoint / nested / equal keys / random overlap / empty; distinct / tied / all-equal / special scores) + k, cut-off in Z (incl. ±2^63) + weights + K>0; all 6 aggregations on the list and on a permutation of it, LimitResults, sanitizeK, Autocut, AutocutResults, mergeResults(+sort), 4 fusions, scoreMapToRanks are called; a case is non-trivial when at least two of {an aggregation/merge saw duplicate ids and returned >= 2 ids; a fusion saw overlapping but unequal key sets; autocut cut strictly inside the list; k truncated the list} hold; distinct = distinct request streams",
+		RuleText: "one case = a result list (0..300 entries; duplicate ids; random / lattice-with-ties / ascending-with-knees / all-equal / NaN,±Inf,±0,denormal,1e30 scores) + a pair of score maps (disjoint / nested / equal keys / random overlap / empty; distinct / tied / all-equal / special scores) + k, cut-off in Z (incl. ±2^63) + weights + K>0; in 1 case of 5 a config obtained from DefaultFusionConfig() is customised and used first, then DefaultFusion(), NewFusion(kind, nil) and DefaultFusionConfig() are evaluated and must still be (1, 1, 60); all 6 aggregations on the list and on a permutation of it, LimitResults, sanitizeK, Autocut, AutocutResults, mergeResults(+sort), 4 fusions, scoreMapToRanks are called; a case is non-trivial when at least two of {an aggregation/merge saw duplicate ids and returned >= 2 ids; a fusion saw overlapping but unequal key sets; autocut cut strictly inside the list; k truncated the list} hold; distinct = distinct request streams",
 		NCases: func(tier string) int {
 			if tier == "thorough" {
 				return 60000
